@@ -151,6 +151,38 @@ def sqlRun {R : Type} (db : Db R) (stmts : List (SqlStmt R)) (failAt : Option Na
 
 end BlackIt.Checkpoint
 
+/-! ### the saving folder as a directory: files by name
+
+`load_calibrator_state` opens exactly the files it names; whatever else lies in the folder - files of other tools, of older releases, of other
+runs under other names - is not looked at, and `save_calibrator_state` leaves such files alone.  `fileNames` is compared with the data-file names
+that occur as string literals in the source of the package under test on every run (`harness/vp/leftovers.py`, `ckpt.names`). -/
+namespace BlackIt.Checkpoint.Dir
+
+/-- the files of the JSON/CSV/HDF5 back-end, and the database of the SQLite back-end -/
+def fileNames : List String :=
+  ["calibration_params.json", "scheduler_pickled.pickle", "loss_function_pickled.pickle", "calibration_results.csv", "series_samp.h5"]
+def sqliteName : String := "checkpoint.sqlite"
+
+/-- a directory: name ↦ content (first entry wins) -/
+abbrev Dir (B : Type) := List (String × B)
+
+def get {B : Type} (d : Dir B) (name : String) : Option B := (d.find? (fun e => e.1 == name)).map (·.2)
+
+/-- create or replace one file -/
+def put {B : Type} (d : Dir B) (name : String) (b : B) : Dir B := (name, b) :: d.filter (fun e => e.1 != name)
+
+/-- a save: the five named files are created or replaced (`contents` gives the new content of each from what was there before - the series file is
+appended to or rewritten, the other four rewritten), nothing else is touched -/
+def save {B : Type} (contents : String → Option B → B) (d : Dir B) : Dir B :=
+  fileNames.foldl (fun acc n => put acc n (contents n (get d n))) d
+
+/-- a load: the five named files, all present, handed to the decoder -/
+def load {B S : Type} (decode : List B → Option S) (d : Dir B) : Option S := do
+  let files ← fileNames.mapM (get d)
+  decode files
+
+end BlackIt.Checkpoint.Dir
+
 /-! ### the process dies during a SQLite save: rollback journal
 
 One transaction of the save as the file system sees it (`strace` of the real save: `openat journal`, `pwrite64 journal`…,
